@@ -91,7 +91,14 @@ class UpdateReferences:
           found = True
       elif isinstance(elem, gfapy.OrientedLine):
         if elem.line is oldref:
-          if hasattr(oldref, "is_compatible_complement") and \
+          if self.record_type == "P" and lst is self._refs.get("links") and \
+              isinstance(newref, gfapy.Line) and newref.record_type == "L":
+            # the direction belongs to the step of the path and the link that
+            # now stands for it, not to the line that stood for it before
+            sfrom, sto, cigar = self._compute_required_links()[idx]
+            elem.orient = "+" if \
+                newref.is_compatible_direct(sfrom, sto, cigar) else "-"
+          elif hasattr(oldref, "is_compatible_complement") and \
               hasattr(newref, "oriented_from") and \
               oldref.is_compatible_complement(newref.oriented_from,
                 newref.oriented_to, newref.overlap) and \
